@@ -198,7 +198,11 @@ class SimSource:
                errno.ECONNRESET, 'simulated reset'),
            'SimSourceError': lambda: SimSourceError('simulated source fault')}
 
-    def __init__(self, data, plan, fault=None, has_close=True):
+    KINDS = {'bytes': bytes, 'bytearray': bytearray,
+             'memoryview': memoryview}
+
+    def __init__(self, data, plan, fault=None, has_close=True, kind=None):
+        self.kind = self.KINDS.get(kind or 'bytes', bytes)
         self.data = data
         self.plan = list(plan)
         self.k = 0
@@ -234,10 +238,14 @@ class SimSource:
         self.delivered.append(chunk)
         return chunk
 
+    def _out(self, chunk):
+        # what the consumer is handed: bytes, or another bytes-like kind
+        return chunk if self.kind is bytes else self.kind(chunk)
+
     # file personality
     def read(self, size=-1):
         self._fault_check()
-        return self._take(size)
+        return self._out(self._take(size))
 
     # iterator personality
     def __iter__(self):
@@ -248,7 +256,7 @@ class SimSource:
         if self.k >= len(self.plan) and self.pos >= len(self.data):
             self.stopped = True
             raise StopIteration
-        return self._take()
+        return self._out(self._take())
 
     def close(self):
         self.closed += 1
